@@ -29,6 +29,7 @@ RULE = ('M1: every sequence of <=2 (quick) / <=3 (thorough) AddSegment/RemoveSeg
         'm2-range-list: one day, 2-4 ranges of one comma-separated list in every relative position (disjoint, adjacent, overlapping, nested, identical, nested ending/beginning together, three- and four-level nesting, outer with several inner) x every written order (all permutations up to 3 ranges, 6 of 24 for 4 in the quick tier) x {within the day, across midnight (wrap form or hour >= 24), ending at 24:00} x {one key, weekday + date key sharing the list, a referencing period with included/excluded periods whose lists nest likewise}; '
         'm2-rolling: 48-72 h of the REAL TimePeriod::UpdateTimerHandler() after Start() (5-minute rounds around every local midnight, 15 min - 2 h steps and one stall of 5-9 h in between), the referencing period created (= updated in every round) before, between or after the periods it includes/excludes, those with ranges running past midnight; every round judged at every probe from one hour before the round up to valid_end; '
         'the probes of every calendar case contain both boundaries of every written range (+-1 s) and the middle of every gap between consecutive boundaries - the oracle recomputes that list from the written ranges and refuses to decide otherwise; '
+        'm2-restart-changed-definition: three periods run (real Start() + real UpdateTimerHandler rounds), then every period goes through tp_reload (state attributes through the state-file record and the real ConfigObject::RestoreObject into a NEW object built from an edited definition: own ranges, part of the ranges removed, ranges of a referenced period, exclude / include added / dropped / swapped, prefer_includes flipped, unchanged as control), the real Start() on the restored state 0 s - 11 h after the last round, 2-60 more rounds; every answer judged against the NEW definition; m2-directed-restart-valid-end: the witness of finding restart-keeps-valid-end, its control and the reverse edit. '
         'm2-parse-*: 126 hand-made corner strings and mutated printed strings through config validation (accepted/rejected, code against the parser model), odd but accepted strings evaluated. '
         'non-trivial = at least one observed state with a segment and both inside and outside probes; distinct = distinct script text')
 TRUSTED = ['model: coq/Tp/TpModel.v (transcription of timeperiod.cpp 41-301), coq/Tp/TpCal.v (transcription of legacytimeperiod.cpp '
@@ -1537,6 +1538,15 @@ def extra_stats(cases, impl):
     mform = collections.Counter(c['tags'].get('month_form') for c in cases if c['tags'].get('family') == 'm2-month-name')
     rl = [c for c in cases if c['tags'].get('family') == 'm2-range-list']
     ro = [c for c in cases if c['tags'].get('family') == 'm2-rolling']
+    rs_ = [c for c in cases if c['tags'].get('family') in ('m2-restart-changed-definition', 'm2-directed-restart-valid-end')]
+
+    def reload_lines(c):
+        # the observation lines of the tp_reload ops of a case (the state RestoreObject put into the new object)
+        outl = [l for l in impl.get(c['id'], []) if not l.startswith(('case', 'end'))]
+        ops = [l for l in c['lines'] if l.split()[0] in ('tp_tz', 'tp_mk', 'tp_parse', 'tp_add', 'tp_rm', 'tp_purge', 'tp_upd', 'tp_start', 'tp_reload', 'tp_now', 'tp_timer')]
+        if any(l.startswith('tp_timer') for l in ops):
+            return [l for l in outl if l.startswith('tp ')]     # a timer prints several lines: count any state line of the case
+        return [o for l, o in zip(ops, outl) if l.startswith('tp_reload')]
     return {'zones': dict(zones), 'windows_on_dst_transition_days': trw,
             'range_list_family': {'cases': len(rl), 'by_configuration': dict(collections.Counter(c['tags']['list_config'] for c in rl)),
                                   'by_variant': dict(collections.Counter(c['tags']['list_variant'] for c in rl)),
@@ -1547,6 +1557,11 @@ def extra_stats(cases, impl):
                                'referencing_period_updated': dict(collections.Counter(c['tags']['roll_order'] for c in ro)),
                                'shapes': dict(collections.Counter(c['tags']['roll_shape'] for c in ro)),
                                'walking_over_a_dst_transition': sum(1 for c in ro if c['tags'].get('roll_crosses_transition'))},
+            'restart_family': {'cases': len(rs_), 'by_change': dict(collections.Counter(c['tags']['restart_change'] for c in rs_)),
+                               'timer_rounds': sum(c['tags'].get('roll_rounds_restart', 0) for c in rs_),
+                               'rounds_before_restart': {str(k): v for k, v in collections.Counter(c['tags'].get('restart_rounds_before', 'directed') for c in rs_).items()},
+                               'seconds_between_last_round_and_restart': {str(k): v for k, v in collections.Counter(c['tags'].get('restart_gap', 'directed') for c in rs_).items()},
+                               'restored_states_with_segments': sum(1 for c in rs_ if any(l.startswith('tp ') and 'segs=-' not in l for l in reload_lines(c)))},
             'compared_only_per_zone': {
                 'what': 'not covered by a theorem and therefore aimed at every transition of every zone that has one: mktime for local times '
                         'inside a skipped / repeated hour (libc primed with the local time two days earlier, against tp_tab_mk); proved only under '
